@@ -67,6 +67,8 @@ def element_of(case):
 def full_count(leaf):
     if leaf["mode"] == "iterations":
         return (leaf.get("warmup_iterations") or 0) + leaf["iterations"]
+    if leaf.get("source_size") is not None and leaf.get("time_period") is None:
+        return leaf["source_size"]  # warm-up period only: runs until its (finite) parameter source is exhausted, like bulk indexing
     return None
 
 
@@ -260,6 +262,8 @@ def check_race(case, r, obs, expect_success=True):
         obs.cls("multi-worker")
     if broadcast:
         obs.cls("completed-by-broadcast")
+    if any(leaf.get("ramp_up") for _, leaf in sim_race.leaves(schedule)):
+        obs.cls("ramp-up-element")
     if any(gen_races.over_committed(el) for el in schedule):
         obs.cls("over-committed")
     if max_delay >= 2:
